@@ -281,6 +281,12 @@ func TestMinerRegistryHistories(t *testing.T) {
 				case "add":
 					m.kind = "add"
 					m.stake = rapid.SampledFrom([]uint64{0, 1, 100, 400, 1 << 40}).Draw(t, "addStake")
+					if own := ownedRecords(md); len(own) > 0 && rapid.IntRange(0, 9).Draw(t, "aimedAdd") < 6 {
+						r := rapid.SampledFrom(own).Draw(t, "addTarget")
+						effID, id, idClass = r.id, r.id, "owned"
+						m.idClass = idClass
+						m.id = id
+					}
 					idHex := ""
 					if id != nil {
 						idHex = common.ToHex(id)
@@ -290,12 +296,40 @@ func TestMinerRegistryHistories(t *testing.T) {
 				case "refund":
 					m.kind = "refund"
 					m.amount = rapid.SampledFrom([]string{"0", "1", "100", "400", "401", "2000", "18446744073709551615", "999999999", "abc", "-1"}).Draw(t, "refundAmount")
+					// mostly aim at a miner this history created, from the key that owns it, with amounts around what it
+					// holds: to the minimum exactly, just below it (aborts the miner), a further part of an aborted one, all
+					if own := ownedRecords(md); len(own) > 0 && rapid.IntRange(0, 9).Draw(t, "aimedRefund") < 7 {
+						r := rapid.SampledFrom(own).Draw(t, "refundTarget")
+						k = keyOfAccount(r.account)
+						nonces[k.Idx]++
+						m.src = k
+						effID, id, idClass = r.id, r.id, "owned"
+						m.idClass = idClass
+						ms := minStake(r.typ)
+						var opts []uint64
+						if r.stake > ms {
+							opts = append(opts, r.stake-ms, r.stake-ms+1)
+						}
+						if r.stake > 1 {
+							opts = append(opts, 1, r.stake/2, r.stake-1)
+						}
+						opts = append(opts, r.stake, r.stake+1)
+						m.amount = strconv.FormatUint(rapid.SampledFrom(opts).Draw(t, "aimedAmount"), 10)
+					}
 					m.tx = txgen.MinerRefund(k, common.ToHex(effID), m.amount, nonces[k.Idx], s)
 					m.id = effID
 					m.desc = fmt.Sprintf("refund(src=K%d id=%s amount=%s)", k.Idx, idClass, m.amount)
 				case "change":
 					m.kind = "change"
 					m.account = common.FromHex(txgen.K(rapid.IntRange(0, 5).Draw(t, "newAcc")).Addr)
+					if own := ownedRecords(md); len(own) > 0 && rapid.IntRange(0, 9).Draw(t, "aimedChange") < 7 {
+						r := rapid.SampledFrom(own).Draw(t, "changeTarget")
+						k = keyOfAccount(r.account)
+						nonces[k.Idx]++
+						m.src = k
+						effID, id, idClass = r.id, r.id, "owned"
+						m.idClass = idClass
+					}
 					if stats.IsKnown("F-C20-a") && accountsClaimedInBlock[hx(m.account)] > 0 {
 						stats.Exclude("F-C20-a")
 						m.account = common.FromHex(fmt.Sprintf("0x%040x", 0xc20000+saltCounter*100+b*10+i))
@@ -716,4 +750,30 @@ func TestProbeSameBlockSameAccount(t *testing.T) {
 	both := len(r2.Receipts) == 2 && r2.Receipts[0].Status == types.ReceiptStatusSuccessful && r2.Receipts[1].Status == types.ReceiptStatusSuccessful
 	stats.Probe(t, "F-C20-a", "C20", both,
 		"two miner-apply transactions in one block naming the same account both succeed (service.MinerManager.GetMinerIdByAccount iterates the storage trie, which lacks the first miner until the block is finalised): one account controls two miners")
+}
+
+// ownedRecords lists the miners of this history (active or aborted with stake left) whose account is one of the
+// harness keys, in a stable order.
+func ownedRecords(md *model) []*rec {
+	var keys []string
+	for k, r := range md.recs {
+		if !r.genesis && (r.active || r.stake > 0) && keyOfAccount(r.account) != nil {
+			keys = append(keys, k)
+		}
+	}
+	sort.Strings(keys)
+	var out []*rec
+	for _, k := range keys {
+		out = append(out, md.recs[k])
+	}
+	return out
+}
+
+func keyOfAccount(acc []byte) *txgen.Key {
+	for i := 0; i < 6; i++ {
+		if bytes.Equal(common.FromHex(txgen.K(i).Addr), acc) {
+			return txgen.K(i)
+		}
+	}
+	return nil
 }
